@@ -167,6 +167,21 @@ fn any(port: u16) -> SocketAddr {
     (IpAddr::V4(Ipv4Addr::UNSPECIFIED), port).into()
 }
 
+/// Writes records for ever in the readiness style; returns the error that ended it.
+async fn readiness_writer(s: &TcpStream) -> std::io::Error {
+    let mut k = 0u64;
+    loop {
+        if let Err(e) = s.writable().await {
+            return e;
+        }
+        match s.try_write(&[k as u8; 8]) {
+            Ok(_) => k += 1,
+            Err(e) if e.kind() == std::io::ErrorKind::WouldBlock => continue,
+            Err(e) => return e,
+        }
+    }
+}
+
 // ---- server (n0) -----------------------------------------------------------------
 
 async fn server(c: Ctx) -> turmoil::Result {
@@ -380,6 +395,31 @@ async fn server(c: Ctx) -> turmoil::Result {
             }
         });
     }
+    // 9007: like 9005, but the accepting side writes in the readiness style
+    // (`writable().await` then `try_write`)
+    {
+        let c = c.clone();
+        tokio::task::spawn_local(async move {
+            let _g = c.guard("pushw");
+            let l = match TcpListener::bind(any(9007)).await {
+                Ok(l) => l,
+                Err(e) => return c.log("pushw", "bind", json!(9007), json!(kind(&e))),
+            };
+            let _o = c.obj(json!(["listener", 9007]));
+            c.log("pushw", "bind", json!(9007), json!("ok"));
+            loop {
+                let Ok((s, from)) = l.accept().await else { break };
+                let c2 = c.clone();
+                tokio::task::spawn_local(async move {
+                    let _g = c2.guard("pushw_conn");
+                    let _o = c2.stream_obj(&s, "whole");
+                    c2.log("pushw", "accepted", json!(from.port()), Value::Null);
+                    let r = readiness_writer(&s).await;
+                    c2.log("pushw", "end", json!(kind(&r)), json!(from.port()));
+                });
+            }
+        });
+    }
     // 9005: the ACCEPTING side is the writer: pushes records as fast as the window allows to a peer
     // that never reads, i.e. it is soon parked in write_all on a full window
     {
@@ -424,11 +464,17 @@ async fn server(c: Ctx) -> turmoil::Result {
             let j = s.join_multicast_v4(GROUP, Ipv4Addr::UNSPECIFIED);
             c.log("udp", "join", json!(j.is_ok()), Value::Null);
             let mut buf = [0u8; 16];
+            // readiness style: readable().await, then drain with try_recv_from
             loop {
-                let Ok((n, from)) = s.recv_from(&mut buf).await else { break };
-                let id = u64::from_le_bytes(buf[..8].try_into().unwrap());
-                c.log("udp", "recv", json!(id), json!(n));
-                let _ = s.send_to(&buf[..n], from).await;
+                if s.readable().await.is_err() {
+                    break;
+                }
+                while let Ok((n, from)) = s.try_recv_from(&mut buf) {
+                    let id = u64::from_le_bytes(buf[..8].try_into().unwrap());
+                    c.log("udp", "recv", json!(id), json!(n));
+                    let _ = s.writable().await;
+                    let _ = s.try_send_to(&buf[..n], from);
+                }
             }
         });
     }
@@ -597,6 +643,38 @@ async fn client(c: Ctx) -> turmoil::Result {
                     }
                 }
             }
+        });
+    }
+    // W: writes to the peer that never reads (9002) in the readiness style until the window is full
+    {
+        let c = c.clone();
+        tokio::task::spawn_local(async move {
+            let _g = c.guard("W");
+            tokio::time::sleep(c.tick * 3).await;
+            let s = match TcpStream::connect((srv, 9002)).await {
+                Ok(s) => s,
+                Err(e) => return c.log("W", "connect", json!(kind(&e)), Value::Null),
+            };
+            let _o = c.stream_obj(&s, "whole");
+            c.log("W", "connect", json!("ok"), json!(s.local_addr().unwrap().port()));
+            let e = readiness_writer(&s).await;
+            c.log("W", "end", json!(kind(&e)), json!("write"));
+        });
+    }
+    // Q: connects to the readiness-style push port and never reads
+    {
+        let c = c.clone();
+        tokio::task::spawn_local(async move {
+            let _g = c.guard("Q");
+            tokio::time::sleep(c.tick * 2).await;
+            let s = match TcpStream::connect((srv, 9007)).await {
+                Ok(s) => s,
+                Err(e) => return c.log("Q", "connect", json!(kind(&e)), Value::Null),
+            };
+            let _o = c.stream_obj(&s, "whole-unread");
+            c.log("Q", "connect", json!("ok"), json!(s.local_addr().unwrap().port()));
+            std::future::pending::<()>().await;
+            drop(s);
         });
     }
     // P: connects to the push port and never reads: the window fills with unread data
